@@ -148,9 +148,28 @@ def generate(tier):
     for sh in VERYWIDE:
         for assign in verywide_assignments(sh, 'cim'):
             cases.append(build(sh, assign, 'P', small_domain=True, probe=PROBE))
+    # two named variants that use the same field names at different positions (V0 {f0, f1}, V1 {f1, f0})
+    for sh in [S.Shape('enum', [S.Fields('n', 2), S.Fields('n', 2)]), S.Shape('enum', [S.Fields('t', 1), S.Fields('n', 2)]), S.Shape('enum', [S.Fields('n', 1), S.Fields('u'), S.Fields('n', 3)])]:
+        for assign in assignments(sh, 'cim'):
+            for cfg in ('P', 'EP'):
+                with S.naming('rot'):
+                    c = build(sh, assign, cfg)
+                c.key += '|rot'
+                cases.append(c)
+    from .common import zoo_cases
+    cases += zoo_cases('C02', 'PartialEq', 'Debug, Clone', 'Debug, Clone, PartialEq',
+                       '    for (i, (a, ta)) in vs.iter().enumerate() {\n        for (j, (b, tb)) in vs.iter().enumerate() {\n'
+                       '            r.ck((a == b) == (ta == tb), (ta == tb) as u64, &|| format!("values #{} and #{}: == gives {}, #[derive(PartialEq)] gives {}", i, j, a == b, ta == tb));\n'
+                       '            r.ck((a != b) == (ta != tb), 2, &|| format!("values #{} and #{}: != gives {}", i, j, a != b));\n        }\n    }\n')
     from .common import rawify
     for c in [x for x in cases if x.key.startswith('C02|P|s:n2|') or x.key.startswith('C02|EP|e:n2,n1|') or x.key.startswith('C02|PE|s:n3|')]:
         r_ = rawify(c)
+        if r_:
+            cases.append(r_)
+    from .common import underscorify
+    for c in [x for x in cases if (x.key.startswith('C02|P|s:n2|') or x.key.startswith('C02|EP|e:n2,n1|') or x.key.startswith('C02|PE|s:n3|') or x.key.startswith('C02|P|e:n2,n2|')
+                                   or x.key.startswith('C02|PE|e:n2|')) and '|raw' not in x.key]:
+        r_ = underscorify(c)
         if r_:
             cases.append(r_)
     for sh in S.struct_shapes(2) + S.enum_shapes(2, 2):
